@@ -24,7 +24,7 @@ def bounds(tier):
 
 
 def expected_clauses(tier):
-    return ['modulus', 'stepup', 'rho', 'rho_monotone', 'nest', 'stage_min', 'criteria', 'pburg']
+    return ['modulus', 'stepup', 'rho', 'rho_monotone', 'nest', 'stage_min', 'criteria', 'pburg', 'input_unchanged', 'pburg_history']
 
 
 def _alpha(name):
@@ -66,7 +66,8 @@ def run_shard(desc, R, tier):
             eval_point({'x': x}, R)
     else:
         _, N, cplx, half = desc
-        fam = (A.gen_cplx(N) + A.tones_cplx(N)) if cplx else (A.gen_real(N) + A.tones_real(N) + A.pcm(N))
+        fam = (A.gen_cplx(N) + A.tones_cplx(N)) if cplx else (A.gen_real(N) + A.tones_real(N) + A.pcm(N) + A.pcm64(N))
+        fam = fam + A.scaled(fam) + A.strided(fam)
         for i, (name, x) in enumerate(fam):
             if i % 2 == half:
                 eval_point({'x': x, 'name': name}, R)
@@ -105,8 +106,10 @@ def eval_point(pt, R):
         R.point(ptp)
         R.calls()
         try:
-            a, rho, k = spectrum.arburg(x, p)
+            xin = x.copy()
+            a, rho, k = spectrum.arburg(xin, p)
             a, k = np.asarray(a), np.asarray(k)
+            R.check(np.array_equal(xin, x), 'input_unchanged', feats, ptp, xin, x, 'arburg modified its input array')
         except Exception as e:
             R.viol('modulus', dict(feats, exc=type(e).__name__), ptp, repr(e), None, 'arburg raised on non-degenerate data')
             continue
@@ -169,6 +172,24 @@ def eval_point(pt, R):
                 aq, rq, kq = spectrum.arburg(x, qsel)
                 R.check(close(ac, np.asarray(aq), 1e-12, 1e-14) and abs(rc_ - rq) <= 1e-12 * abs(rq) and close(kc, np.asarray(kq), 1e-12, 1e-14), 'criteria', dict(feats, crit=crit), ptc,
                         [ac, rc_], [aq, rq], 'result with a criterion is not exactly the Burg model of order len(a)', outs=(ac, crit))
+        if (p == pmax or p == 2) and p >= 2 and N >= 8:
+            # history on one pburg object: compute, change the criteria attribute, recompute explicitly
+            for c1, c2 in ((None, 'AIC'), ('AIC', None), ('MDL', 'FPE')):
+                R.calls(3)
+                try:
+                    o = spectrum.pburg(x, p, criteria=c1)
+                    o()
+                    o.psd
+                    o.criteria = c2
+                    o()
+                    fresh = spectrum.pburg(x, p, criteria=c2)
+                    fresh()
+                    same = close(np.asarray(o.ar), np.asarray(fresh.ar), 1e-12, 1e-14) and close(np.asarray(o.psd), np.asarray(fresh.psd), 1e-12, 0.0) \
+                        if len(np.asarray(o.ar)) == len(np.asarray(fresh.ar)) else False
+                    R.check(same, 'pburg_history', dict(feats, change='%s->%s' % (c1, c2)), dict(ptp, history=[c1, c2]), np.asarray(o.ar), np.asarray(fresh.ar),
+                            'recomputing a pburg object after changing its criteria does not give the model of a fresh object')
+                except Exception as e:
+                    R.viol('pburg_history', dict(feats, exc=type(e).__name__), dict(ptp, history=[c1, c2]), repr(e), None, 'pburg history raised')
         if p == pmax or p == 1 or 'p' in pt:
             R.calls()
             try:
